@@ -1233,3 +1233,25 @@ fn list(p: &Params) -> Program {
         ..ebase(p, 1 << sched::CLASS_RAW)
     }
 }
+
+// re-exports for the generated family
+pub fn ebody_pub(ew: &Arc<EWorld>, f: impl FnOnce(&ECtx, &EWorld) + Send + 'static) -> Body {
+    ebody(ew, f)
+}
+pub fn survivor_pub(ew: &Arc<EWorld>, max: usize, rounds_before_check: bool) -> Body {
+    survivor(ew, max, rounds_before_check)
+}
+pub fn finish_all_ran_once_pub() -> Box<dyn FnOnce(&mut Monitor)> {
+    finish_all_ran_once()
+}
+pub fn ebase_pub(p: &Params, classes: u8) -> Program {
+    ebase(p, classes)
+}
+impl EWorld {
+    pub fn new_pub(e0: usize) -> Arc<EWorld> {
+        EWorld::new(e0)
+    }
+    pub fn attach_pub(&self, e0: usize) {
+        self.attach(e0)
+    }
+}
